@@ -48,7 +48,7 @@ def report(ctx, t0):
     err = core.validate_evidence(path)
     t = ctx.total
     print(f'{ctx.pid} tier={ctx.tier} seed={ctx.seed} evaluations={t.evaluations} distinct_nontrivial={t.nontrivial} '
-          f'states={t.states} transitions={t.transitions} traces={t.traces} outcomes={len(t.outcomes)} '
+          f'states={t.states + len(t.fps)} transitions={t.transitions} traces={t.traces} outcomes={len(t.outcomes)} '
           f'caps={t.caps} wall={wall:.1f}s')
     for name, sc in ctx.subchecks.items():
         print(f'  [{name}] ' + ' '.join(f'{k}={v}' for k, v in sc.items()))
